@@ -552,6 +552,17 @@ class _PLT:
     loops = {0: PLTLoop()}
     normalize = False
     rank = 1
+    oracle = 'poisson_likelihood_test'
+
+    @classmethod
+    def witness(cls, m, p):
+        from pyvc.driver import model_value
+        out = {k: model_value(m, p[k]) for k in ('forecast_data', 'observed_data', 'num_simulations', 'random_numbers')}
+        out['normalize_likelihood'] = cls.normalize
+        if p.get('seed') is not None:
+            out['seed'] = model_value(m, p['seed'])
+        out['use_observed_counts'] = bool(p.get('use_observed_counts', True))
+        return out
 
     @classmethod
     def params(cls, c):
